@@ -261,3 +261,220 @@ Section Main.
     unfold SavedCfg.input_check in *. rewrite U in H. rewrite F. exact H.
   Qed.
 End Main.
+
+(* ------------------------------------------------------------------ Part C: the pipeline section *)
+
+Definition classes_wf (classes : list class_def) : bool :=
+  forallb (fun c => ops_clean (c_prologue c) && prologue_wf (c_prologue c)) classes.
+
+Definition steps_clean (steps : dict) : bool :=
+  forallb (fun kv => match snd kv with JDict c => clean c | _ => true end) steps.
+
+Section Pipe.
+  Variable classes : list class_def.
+  Variable interp : list string.
+  Hypothesis W : classes_wf classes = true.
+
+  Lemma class_in_wf c : In c classes -> ops_clean (c_prologue c) = true /\ prologue_wf (c_prologue c) = true.
+  Proof.
+    intro I. unfold classes_wf in W. rewrite forallb_forall in W. specialize (W c I).
+    apply andb_prop in W. exact W.
+  Qed.
+
+  (* C05's idempotence through the registry dispatch; the completion extends the input *)
+  Lemma step_check_fix g kind cfg d :
+    clean cfg = true -> step_check no_oracle classes g kind cfg = Some d ->
+    step_check no_oracle classes g kind d = Some d /\ exists app, d = cfg ++ app.
+  Proof.
+    intros C H. unfold step_check, find_class in *.
+    destruct (find (fun c => String.eqb (c_kind c) kind) classes) as [c0|]; [|discriminate].
+    destruct (lookup (c_method_key c0) cfg) as [mv|] eqn:L; [|discriminate].
+    destruct mv as [| | | |m| | | |]; try discriminate.
+    destruct (find (fun c => String.eqb (c_kind c) kind && mem_str m (c_names c)) classes) as [c|] eqn:Fc; [|discriminate].
+    pose proof (find_some _ _ Fc) as [Ic _]. destruct (class_in_wf c Ic) as [OC PW].
+    pose proof (class_check_appends g c cfg d C OC H) as E.
+    split; [|exists (appended (c_prologue c) cfg); exact E].
+    assert (L' : lookup (c_method_key c0) d = Some (JStr m)) by (rewrite E, lookup_app, L; reflexivity).
+    rewrite L', Fc. exact (class_check_idempotent g c cfg d C OC PW H).
+  Qed.
+
+  Lemma step_full_fix im kind cfg d :
+    clean cfg = true -> step_full classes interp im kind cfg = Some d ->
+    step_full classes interp im kind d = Some d /\ exists app, d = cfg ++ app.
+  Proof.
+    intros C H. unfold step_full in *.
+    destruct (step_check no_oracle classes (is_grid (src_left im) || is_grid (src_right im)) kind cfg) as [d0|] eqn:S;
+      [|discriminate].
+    destruct (step_check_fix _ kind cfg d0 C S) as [S' X].
+    assert (E : d0 = d).
+    { destruct (String.eqb kind "matching_cost").
+      - destruct (lookup "band" d0); [|discriminate]. destruct (_ && _); [|discriminate]. inversion H; reflexivity.
+      - destruct (String.eqb kind "validation").
+        + destruct (_ && _); [|discriminate]. inversion H; reflexivity.
+        + destruct (String.eqb kind "filter").
+          * destruct (lookup "filter_method" d0) as [[| | | |fm| | | |]|]; try (inversion H; reflexivity).
+            destruct (lookup "sigma_space" d0) as [[| | |[|]| | | | |]|]; try (inversion H; reflexivity).
+            destruct (String.eqb fm "bilateral"); [discriminate|inversion H; reflexivity].
+          * inversion H; reflexivity. }
+    subst d0. rewrite S'. split; [exact H|exact X].
+  Qed.
+
+  Lemma step_full_inv im kind cfg d :
+    step_full classes interp im kind cfg = Some d ->
+    step_check no_oracle classes (is_grid (src_left im) || is_grid (src_right im)) kind cfg = Some d.
+  Proof.
+    intro H. unfold step_full in H.
+    destruct (step_check no_oracle classes (is_grid (src_left im) || is_grid (src_right im)) kind cfg) as [d0|] eqn:S;
+      [|discriminate].
+    f_equal.
+    destruct (String.eqb kind "matching_cost").
+    - destruct (lookup "band" d0); [|discriminate]. destruct (_ && _); [|discriminate]. inversion H; reflexivity.
+    - destruct (String.eqb kind "validation").
+      + destruct (_ && _); [|discriminate]. inversion H; reflexivity.
+      + destruct (String.eqb kind "filter").
+        * destruct (lookup "filter_method" d0) as [[| | | |fm| | | |]|]; try (inversion H; reflexivity).
+          destruct (lookup "sigma_space" d0) as [[| | |[|]| | | | |]|]; try (inversion H; reflexivity).
+          destruct (String.eqb fm "bilateral"); [discriminate|inversion H; reflexivity].
+        * inversion H; reflexivity.
+  Qed.
+
+  (* the result of a step check does not depend on which image is left *)
+  Lemma step_full_swap im kind cfg d d' :
+    step_full classes interp im kind cfg = Some d ->
+    step_full classes interp (swap_images im) kind cfg = Some d' -> d' = d.
+  Proof.
+    intros H H'. apply step_full_inv in H. apply step_full_inv in H'.
+    cbn [src_left src_right swap_images] in H'. rewrite orb_comm in H'. congruence.
+  Qed.
+
+  Notation check_steps := (check_steps classes interp).
+
+  Lemma check_steps_fix im : forall steps done,
+    steps_clean steps = true -> check_steps im steps = Some done ->
+    check_steps im done = Some done
+    /\ keys done = keys steps
+    /\ (forall k v, In (k, v) done -> exists cfg app, In (k, JDict cfg) steps /\ v = JDict (cfg ++ app)).
+  Proof.
+    induction steps as [|[name v] r IH]; intros done C H.
+    - cbn in H. inversion H. cbn. repeat split; auto. intros k v [].
+    - cbn [Pipeline.check_steps] in H. destruct v; try discriminate.
+      destruct (step_full classes interp im (kind_of_step name) d) as [dn|] eqn:S; [|discriminate].
+      destruct (Pipeline.check_steps classes interp im r) as [rest|] eqn:R; [|discriminate].
+      inversion H; subst done. cbn in C. apply andb_prop in C as [C1 C2].
+      destruct (step_full_fix im _ d dn C1 S) as [S' [app X]].
+      destruct (IH rest C2 eq_refl) as [I1 [I2 I3]].
+      split; [cbn [Pipeline.check_steps]; rewrite S', I1; reflexivity|].
+      split; [cbn; f_equal; exact I2|].
+      intros k v [E|I].
+      + inversion E; subst. exists d, app. split; [left; reflexivity|reflexivity].
+      + destruct (I3 k v I) as [c [a [Ic Ev]]]. exists c, a. split; [right; exact Ic|exact Ev].
+  Qed.
+
+  Lemma check_steps_swap im : forall steps done d',
+    check_steps im steps = Some done -> check_steps (swap_images im) steps = Some d' -> d' = done.
+  Proof.
+    induction steps as [|[name v] r IH]; intros done d' H H'.
+    - cbn in *. congruence.
+    - cbn [Pipeline.check_steps] in *. destruct v; try discriminate.
+      destruct (step_full classes interp im (kind_of_step name) d) as [dn|] eqn:S; [|discriminate].
+      destruct (step_full classes interp (swap_images im) (kind_of_step name) d) as [dn'|] eqn:S'; [|discriminate].
+      destruct (Pipeline.check_steps classes interp im r) as [rest|] eqn:R; [|discriminate].
+      destruct (Pipeline.check_steps classes interp (swap_images im) r) as [rest'|] eqn:R'; [|discriminate].
+      inversion H; inversion H'; subst.
+      rewrite (step_full_swap im _ d dn dn' S S'), (IH rest rest' eq_refl eq_refl). reflexivity.
+  Qed.
+
+  Lemma firstn_keys_app (a b : dict) : keys a = firstn (List.length a) (keys (a ++ b)).
+  Proof.
+    rewrite keys_app, firstn_app. unfold keys at 3. rewrite map_length, Nat.sub_diag. cbn [firstn].
+    rewrite app_nil_r. apply firstn_keys_self.
+  Qed.
+
+  (* update_conf(cfg, {"pipeline": completed steps}) stores the completed steps *)
+  Lemma check_steps_merge im steps done :
+    steps_clean steps = true -> check_steps im steps = Some done -> flat2 done = true ->
+    merge_items done steps = Some done.
+  Proof.
+    intros C H F. destruct (check_steps_fix im steps done C H) as [_ [K I]].
+    unfold flat2 in F. apply andb_prop in F as [F N]. rewrite forallb_forall in F.
+    apply (merge_items_absorb done [] steps).
+    - exact N.
+    - rewrite K. apply firstn_keys_self.
+    - intros k v Hin. destruct (I k v Hin) as [cfg [app [Ic Ev]]]. subst v.
+      rewrite (lookup_in_nodup steps k (JDict cfg)); [|rewrite <- K; exact N|exact Ic].
+      rewrite merge_val_dict. specialize (F _ Hin). cbn in F.
+      rewrite (merge_flat_over cfg (cfg ++ app) F (firstn_keys_app cfg app)). reflexivity.
+  Qed.
+
+  Lemma has_validation_keys a b : keys a = keys b -> has_validation a = has_validation b.
+  Proof.
+    unfold has_validation. revert b. induction a as [|[k v] a IH]; intros [|[k' v'] b]; cbn; try discriminate; [reflexivity|].
+    intro E. inversion E; subst. rewrite (IH b); [reflexivity|assumption].
+  Qed.
+
+  Lemma lookup_set_key_same k v d : lookup k (set_key k v d) = Some v.
+  Proof.
+    induction d as [|[k' v'] d IH]; cbn; [rewrite String.eqb_refl; reflexivity|].
+    destruct (String.eqb k k') eqn:E; cbn; rewrite E; [reflexivity|exact IH].
+  Qed.
+
+  (* what check_pipeline_section computes on the way, and that it returns the completed steps *)
+  Definition pipe_guard (im : images) (user : dict) : bool :=
+    match update_conf [("pipeline", JDict [])] user with
+    | Some cfg1 =>
+      match lookup "pipeline" cfg1 with
+      | Some (JDict steps) =>
+        steps_clean steps
+        && match check_steps im steps with Some done => flat2 done | None => false end
+      | _ => false
+      end
+    | None => false
+    end.
+
+  Lemma pipeline_check_out im user out :
+    pipeline_check classes interp im user = Some out -> pipe_guard im user = true ->
+    exists done, out = [("pipeline", JDict done)] /\ flat2 done = true
+                 /\ check_steps im done = Some done
+                 /\ (has_validation done = true -> check_steps (swap_images im) done = Some done).
+  Proof.
+    unfold pipeline_check, pipe_guard.
+    destruct (update_conf [("pipeline", JDict [])] user) as [cfg1|]; [|discriminate].
+    destruct (lookup "pipeline" cfg1) as [[| | | | | | | |steps]|] eqn:L; try discriminate.
+    destruct (Pipeline.check_steps classes interp im steps) as [done|] eqn:Cs; [|discriminate].
+    intros H G. apply andb_prop in G as [C F].
+    destruct (check_steps_fix im steps done C Cs) as [Fx [K _]].
+    exists done.
+    destruct (has_validation steps && negb _) eqn:V; [discriminate|].
+    assert (U : update_conf cfg1 [("pipeline", JDict done)] = Some (set_key "pipeline" (JDict done) cfg1)).
+    { unfold update_conf. rewrite merge_val_dict. cbn [merge_items]. rewrite L.
+      rewrite merge_val_dict. rewrite (check_steps_merge im steps done C Cs F). reflexivity. }
+    rewrite U in H. rewrite lookup_set_key_same in H. inversion H; subst out.
+    split; [reflexivity|]. split; [exact F|]. split; [exact Fx|].
+    intro Hv. rewrite (has_validation_keys done steps K) in Hv. rewrite Hv in V. cbn in V.
+    apply negb_false_iff in V.
+    destruct (Pipeline.check_steps classes interp (swap_images im) steps) as [d'|] eqn:Sw; [|discriminate].
+    pose proof (check_steps_swap im steps done d' Cs Sw). subst d'.
+    destruct (check_steps_fix (swap_images im) steps done C Sw) as [Fx' _]. exact Fx'.
+  Qed.
+
+  (* PIPELINE SECTION REPLAYS: the completed steps, fed back, are returned unchanged *)
+  Lemma pipeline_check_fix im done :
+    flat2 done = true -> check_steps im done = Some done ->
+    (has_validation done = true -> check_steps (swap_images im) done = Some done) ->
+    pipeline_check classes interp im [("pipeline", JDict done)] = Some [("pipeline", JDict done)].
+  Proof.
+    intros F Fx Sw. unfold pipeline_check.
+    assert (U1 : update_conf [("pipeline", JDict [])] [("pipeline", JDict done)] = Some [("pipeline", JDict done)]).
+    { unfold update_conf. rewrite merge_val_dict. cbn [merge_items lookup]. rewrite String.eqb_refl.
+      rewrite merge_val_dict. rewrite (merge_flat2_new done F). cbn [set_key]. rewrite String.eqb_refl. reflexivity. }
+    rewrite U1. cbn [lookup]. rewrite String.eqb_refl. rewrite Fx.
+    assert (V : has_validation done && negb (match Pipeline.check_steps classes interp (swap_images im) done with
+                                             | Some _ => true | None => false end) = false).
+    { destruct (has_validation done); [|reflexivity]. rewrite (Sw eq_refl). reflexivity. }
+    rewrite V.
+    assert (U2 : update_conf [("pipeline", JDict done)] [("pipeline", JDict done)] = Some [("pipeline", JDict done)]).
+    { unfold update_conf. rewrite merge_val_dict. cbn [merge_items lookup]. rewrite String.eqb_refl.
+      rewrite merge_val_dict. rewrite (merge_flat2_self done F). cbn [set_key]. rewrite String.eqb_refl. reflexivity. }
+    rewrite U2. cbn [lookup]. rewrite String.eqb_refl. reflexivity.
+  Qed.
+End Pipe.
